@@ -121,11 +121,18 @@ func (fs *FileSink) Process(_ context.Context, e *Event) (*Event, error) {
 		writer = fs.f
 	}
 
-	if n, err := reader.WriteTo(writer); err == nil {
+	n, err := reader.WriteTo(writer)
+	if err == nil {
 		// Sinks are leafs, so do not return the event, since nothing more can
 		// happen to it downstream.
 		fs.BytesWritten += n
 		return nil, nil
+	}
+	if n > 0 {
+		// Part of the event has already reached the file: writing it again
+		// would leave a torn copy followed by a full one, so report the error.
+		fs.BytesWritten += n
+		return nil, err
 	}
 
 	// Since we haven't returned yet, we assume that the attempt to write didn't
@@ -137,7 +144,8 @@ func (fs *FileSink) Process(_ context.Context, e *Event) (*Event, error) {
 	}
 
 	_, _ = reader.Seek(0, io.SeekStart)
-	_, err := reader.WriteTo(fs.f)
+	n, err = reader.WriteTo(fs.f)
+	fs.BytesWritten += n
 	return nil, err
 }
 
